@@ -4,7 +4,7 @@ f=$1
 python3 -c "
 import json
 r=json.load(open('$f'))
-c=r['cfg']; print({k:c[k] for k in ('mem_queue_size','msg_timeout_ms','max_msg_timeout_ms','max_req_timeout_ms','output_buffer_timeout_ms','scan_interval_ms','yield_prob','topics','channels','max_rdy','max_msg_size')})
+print(r['cfg'])
 for o in r['ops'] or []: print(' ',o)
 print(r['violation'])
 "
